@@ -191,9 +191,15 @@ def read_log(path):
                 try:
                     out.append(json.loads(line))
                 except ValueError:
-                    if line.endswith("\n"):
-                        raise
-                    # (a process that was stopped while it wrote its last record: the record is not information)
+                    # a process that was stopped while it wrote a record leaves a truncated one; the next process of the
+                    # same member appends to the same file, so the fragment may be glued to the front of a complete
+                    # record: the complete record is recovered, the fragment is not information
+                    k = line.rfind('{"cmd"')
+                    if k > 0:
+                        try:
+                            out.append(json.loads(line[k:]))
+                        except ValueError:
+                            pass
     except FileNotFoundError:
         pass
     return out
